@@ -481,3 +481,15 @@ Lemma notice_implies_newer latest cur t c c' :
 Proof.
   intros H. apply maybe_notice_spec in H. destruct H as [[H _]|(_ & _ & _ & H)]; [discriminate|exact H].
 Qed.
+
+(* ---------- whole seconds on disk, a finer clock in memory ---------- *)
+(* times in milliseconds; the cache file keeps whole seconds.  Written rounded up, a stored time is never earlier than
+   the moment it records, so a window measured from it is a window in real time; written truncated it is not. *)
+Definition stored_up (t : Z) : Z := (t + 999) / 1000 * 1000.
+Definition stored_down (t : Z) : Z := t / 1000 * 1000.
+
+Lemma stored_up_spacing t1 t2 w : t2 - stored_up t1 >= w -> t2 - t1 >= w.
+Proof. unfold stored_up. intros H. pose proof (Z.div_mod (t1 + 999) 1000 ltac:(lia)). pose proof (Z.mod_pos_bound (t1 + 999) 1000 ltac:(lia)). lia. Qed.
+
+Lemma stored_down_refuted : exists t1 t2 w, t2 - stored_down t1 >= w /\ ~ (t2 - t1 >= w).
+Proof. exists 1700000000900, 1700259200100, 259200000. vm_compute. split; [discriminate|]. intros H. apply H. reflexivity. Qed.
